@@ -33,6 +33,11 @@ PART_SETS = {
 }
 
 
+ONLY = {"std": [["mass", "tag"], ["identity", "family"], ["mass", "levelp"]],
+        "ints-first": [["mass", "birth_time"], ["family", "birth_time"]],
+        "bytes-mid": [["mass", "position_x", "position_y", "position_z", "identity"], ["tag", "identity"]]}
+
+
 def part_columns(name, ndim):
     comps = "xyz"[:ndim]
     return [(n, t) for n, t in PART_SETS[name] if not (n[-2:] in ("_x", "_y", "_z") and n[-1] not in comps)]
@@ -49,6 +54,11 @@ def configs(tier):
                 out.append(dict(kind="part", ndim=ndim, pset=pset, ncpu=ncpu, npart=nparts, sort=None))
         out.append(dict(kind="part", ndim=ndim, pset="std", ncpu=2, npart=[2, 1], sort="mass"))
         out.append(dict(kind="part", ndim=ndim, pset="std", ncpu=2, npart=[1, 2], sort="identity"))
+        # a subset of the descriptor's variables (skipped records of every on-disk type lie before, between and after the ones read)
+        for pset, only in ONLY.items():
+            for o in only:
+                out.append(dict(kind="part", ndim=ndim, pset=pset, ncpu=2, npart=[2, 1], sort=None, only=o))
+        out.append(dict(kind="part", ndim=ndim, pset="std", ncpu=2, npart=[1, 2], sort="mass", only=["mass", "tag"]))
     if tier != "quick":
         for ndim in (1, 3):
             for pset in PART_SETS:
@@ -128,6 +138,8 @@ def _body(m, cfg):
                 kw = {}
                 if cfg.get("sort"):
                     kw["sortby"] = {"part": cfg["sort"]}
+                if cfg.get("only"):
+                    kw["select"] = {"part": [n for n in cfg["only"] if not (n[-2:] in ("_x", "_y", "_z") and n[-1] not in "xyz"[:ndim])]}
                 ds.load(**kw)
         finally:
             S.np = old_np
@@ -148,7 +160,7 @@ def _column(group, name, ndim):
 
 def _check_part(m, cfg, out, ds):
     ndim = cfg["ndim"]
-    tag = f"part:{ndim}d:{cfg['pset']}" + (":sort-" + cfg["sort"] if cfg.get("sort") else "")
+    tag = f"part:{ndim}d:{cfg['pset']}" + (":sort-" + cfg["sort"] if cfg.get("sort") else "") + (":only-" + "+".join(cfg["only"]) if cfg.get("only") else "")
     total = sum(cfg["npart"])
     uf = LC.unit_factors(out.cfg)
     m.require(int(ds.meta["nparticles"]) == total, "meta['nparticles'] is the number of particles in the files read", key=f"nparticles:{tag}")
@@ -159,7 +171,7 @@ def _check_part(m, cfg, out, ds):
     if not m.require("part" in ds, "particle group present", key=f"missing:{tag}"):
         return
     g = ds["part"]
-    cols = out.part_columns
+    cols = [c for c in out.part_columns if not cfg.get("only") or c[0] in cfg["only"]]
     # expected rows: concatenation over cpus
     expected = {name: [v for icpu in range(len(cfg["npart"])) for v in out.part_vals[(icpu, name)]] for name, _ in cols}
     order = list(range(total))
@@ -202,7 +214,7 @@ def _check_part(m, cfg, out, ds):
         m.require((kind_ == "f") if typ == "d" or cls != "none" else kind_ in "iuf", f"{name}: numeric column", key=f"dtype:{tag}")
     m.check("every column is the concatenation over CPU files of the stored values times its unit factor, rows aligned", m.And(fs),
             key=f"values:{tag}")
-    if ndim > 1:
+    if ndim > 1 and (not cfg.get("only") or "position_x" in cfg["only"]):
         m.require("position" in g and C.is_vec(g["position"]) and g["position"].nvec == ndim, "positions merged into a Vector",
                   key=f"vector:{tag}")
 
